@@ -184,6 +184,19 @@ theorem bytesDiffer_sound {ty : Ty} {bytes : Bytes} (h : bytesDiffer ty bytes = 
     exact absurd h.2 (by decide)
   · exact absurd h (by decide)
 
+/-- both parsers accept the bytes and the two deserializer models return the same successful result -/
+def bytesAgree (ty : Ty) (bytes : Bytes) : Bool :=
+  match TextTape.parse bytes with
+  | .ok T _ =>
+    decide ((TextReader.sliceTokens bytes).out = .end_) &&
+      (match deTape .utf8 ty (toTextDeTape T) with | .ok _ => true | .error _ => false) &&
+      resBeq (deTape .utf8 ty (toTextDeTape T)) (deStream .utf8 ty ((TextReader.sliceTokens bytes).toks.map toRTok))
+  | _ => false
+
+/-- `x={ a=rgb { 1 } b=2 }`: a nested object whose FIRST field is a header field -/
+def bytesHdrFirst : Bytes :=
+  [120, 61, 123, 32, 97, 61, 114, 103, 98, 32, 123, 32, 49, 32, 125, 32, 98, 61, 50, 32, 125]
+
 /-- `a={ b=1 c d }`: a mixed container (an object that goes on as a bare list) -/
 def bytesMixed : Bytes := [97, 61, 123, 32, 98, 61, 49, 32, 99, 32, 100, 32, 125]
 /-- `a={ b{ c=1 } d=2 }`: the `=` left out on the FIRST field of a nested container -/
@@ -215,6 +228,19 @@ theorem tupleLong_lex :
         .unquoted [51], .close] ∧
     (TextReader.sliceTokens bytesTupleLong).out = .end_ := by
   decide +kernel
+
+/-- `a=?b` + newline: an unquoted scalar that begins with `?` -/
+def bytesQuestion : Bytes := [97, 61, 63, 98, 10]
+def tyQuestion : Ty := .st [([97], .str)]
+
+theorem question_differ : bytesDiffer tyQuestion bytesQuestion = true := by decide +kernel
+
+theorem question_parse :
+    TextTape.parse bytesQuestion = .ok [.unquoted ⟨5, [97]⟩, .unquoted ⟨3, [63, 98]⟩] false := by decide +kernel
+
+theorem question_lex :
+    (TextReader.sliceTokens bytesQuestion).toks = [.unquoted [97], .op .eq, .op .exists_, .unquoted [98]] ∧
+    (TextReader.sliceTokens bytesQuestion).out = .end_ := by decide +kernel
 
 theorem mixed_differ : bytesDiffer tyMixed bytesMixed = true := by decide +kernel
 theorem firstImplicit_differ : bytesDiffer tyFirstImplicit bytesFirstImplicit = true := by decide +kernel
